@@ -161,6 +161,13 @@ class EvDomain(Domain):
             return Sym(f'elem({b},{i})')
         if k != 'call': return Unknown(k)
         q = strip_targs(n.calleeq or '')
+        if n.id in getattr(self, '_algo', {}) and q in ('std::any_of', 'std::all_of', 'std::none_of'):
+            X, ret = self._algo[n.id]
+            empty = self.container_empty(X)
+            self.ev(st, Ev('call', n, name=q, obj=None), fr)
+            if empty is True: return q != 'std::any_of'
+            if empty is False and isinstance(ret, bool): return ret if q == 'std::any_of' else (ret if q == 'std::all_of' else (not ret))
+            return Unknown((q, n.id))
         base = q.split('::')[-1]
         args = n.ns('args')
         obj = n.n('object')
@@ -220,8 +227,24 @@ class EvDomain(Domain):
     def opaque_result(self, ex, n, on, vals, st, fr):
         return None
 
+    def container_empty(self, X):
+        """emptiness of container X as far as the rule's row says (True / False / None)"""
+        return self.atom(f'{X}.empty')
+
     def sync_closures(self, ex, n, st, fr):
         q = n.calleeq or ''
+        if strip_targs(q) in ('std::any_of', 'std::all_of', 'std::none_of'):
+            # the predicate is evaluated on a representative element of [X.begin(), X.end())
+            args = [a for a in n.ns('args') if a is not None]
+            v0 = fr.vals.get(args[0].id) if args else None
+            clo = next((fr.vals.get(a.id) for a in args if isinstance(fr.vals.get(a.id), Closure)), None)
+            if isinstance(v0, Sym) and v0.name.endswith('.begin') and clo is not None and clo.fn is not None:
+                X = v0.name[:-6]
+                self._algo = getattr(self, '_algo', {})
+                self._algo[n.id] = [X, None]
+                if self.container_empty(X) is True: return []
+                self.ev(st, Ev('anyof', n, name=strip_targs(q), obj=X, val=clo), fr)
+                return [(clo, [Sym(X + '.front')])]
         if q.startswith('std::condition_variable::wait'):
             out = []
             for a in n.ns('args'):
@@ -246,6 +269,8 @@ class EvDomain(Domain):
         return []
 
     def after_closure(self, ex, n, clo, ret, st):
+        if n.id in getattr(self, '_algo', {}):
+            self._algo[n.id][1] = ret; return None
         q = n.calleeq or ''
         if q.startswith('std::condition_variable::wait'):
             # wait(lock, pred) returns only when pred() returned true
